@@ -526,7 +526,9 @@ func (v *FnV) contractCall(st *State, call *ast.CallExpr, fc *FuncContract, fn *
 		}
 		v.oblige(s2, fmt.Sprintf("pre:%s:%s", fn.Name(), lbl), call, ord, val.S, "requires "+cl.Text+" of "+shortName(fc.FullName()))
 		// continue under the precondition
-		if val2, err := v.spec(st, cl.Expr, sc); err == nil {
+		if val2, err := v.spec(st, cl.Expr, sc); err == nil && !strings.Contains(val2.S, "(forall") {
+			// (quantified preconditions are not re-assumed: they were just proved from
+			// what is known, and quantifiers inside path guards only slow the solvers down)
 			st.assume(val2.S)
 		}
 	}
@@ -555,6 +557,14 @@ func (v *FnV) contractCall(st *State, call *ast.CallExpr, fc *FuncContract, fn *
 				}
 				v.c.trusted[shortName(fc.FullName())+" is treated as a mathematical function of its arguments ("+fns[0]+")"] = true
 			}
+		}
+		if _, ok := fc.Extra["functional"]; ok {
+			var all []Value
+			if recv != nil {
+				all = append(all, *recv)
+			}
+			all = append(all, args...)
+			st.assume(sEq(r.S, v.functionalApp(fc, i, t, all)))
 		}
 		results = append(results, r)
 		rv := sig.Results().At(i)
@@ -643,7 +653,17 @@ func (v *FnV) builtin(st *State, call *ast.CallExpr, name string, preArgs []Valu
 			ref := v.alloc(st, "make")
 			elem := v.substT(u.Elem())
 			name, h := v.elemHeap(st, elem)
-			st.setHeap(name, sStore(h, ref, fmt.Sprintf("((as const (Array Int %s)) %s)", v.c.sortOf(elem), v.c.zeroOf(elem))))
+			zero := v.c.zeroOf(elem)
+			var arr string
+			if _, isLit := litInt(zero); isLit || zero == "false" {
+				arr = fmt.Sprintf("((as const (Array Int %s)) %s)", v.c.sortOf(elem), zero)
+			} else {
+				// cvc5 accepts only literal values in constant arrays: use a fresh array with a defining axiom
+				arr = v.c.freshName("zeroarr")
+				st.declare(arr, "(Array Int "+v.c.sortOf(elem)+")")
+				st.axiom(fmt.Sprintf("(forall ((k!z Int)) (! (= (select %s k!z) %s) :pattern ((select %s k!z))))", arr, zero, arr))
+			}
+			st.setHeap(name, sStore(h, ref, arr))
 			return []Value{{T: rt, S: fmt.Sprintf("(mkslice %s 0 %s %s)", ref, n.S, cp.S)}}
 		case *types.Map:
 			m := Value{T: rt, S: v.alloc(st, "map")}
@@ -675,7 +695,7 @@ func (v *FnV) builtin(st *State, call *ast.CallExpr, name string, preArgs []Valu
 			} else {
 				srcAt = fmt.Sprintf("(select (select %s (sref %s)) (+ (sloff %s) (- k!c (sloff %s))))", h, src.S, src.S, dst.S)
 			}
-			st.assume(fmt.Sprintf("(forall ((k!c Int)) (! (= (select %s k!c) (ite (and (<= (sloff %s) k!c) (< k!c (+ (sloff %s) %s))) %s (select %s k!c))) :pattern ((select %s k!c))))",
+			st.axiom(fmt.Sprintf("(forall ((k!c Int)) (! (= (select %s k!c) (ite (and (<= (sloff %s) k!c) (< k!c (+ (sloff %s) %s))) %s (select %s k!c))) :pattern ((select %s k!c))))",
 				na, dst.S, dst.S, n.S, srcAt, oldArr, na))
 			st.setHeap(name, sStore(h, sx("sref", dst.S), na))
 		}
@@ -751,7 +771,7 @@ func (v *FnV) appendBuiltin(st *State, call *ast.CallExpr, preArgs []Value, rt t
 	na := v.c.freshName("app")
 	st.declare(na, "(Array Int "+es+")")
 	// old elements copied to offset 0
-	st.assume(fmt.Sprintf("(forall ((k!c Int)) (! (=> (and (<= 0 k!c) (< k!c %s)) (= (select %s k!c) (select (select %s (sref %s)) (+ (sloff %s) k!c)))) :pattern ((select %s k!c))))",
+	st.axiom(fmt.Sprintf("(forall ((k!c Int)) (! (=> (and (<= 0 k!c) (< k!c %s)) (= (select %s k!c) (select (select %s (sref %s)) (+ (sloff %s) k!c)))) :pattern ((select %s k!c))))",
 		oldLen, na, h, base.S, base.S, na))
 	newLen := oldLen
 	for i, e := range extra {
@@ -767,7 +787,7 @@ func (v *FnV) appendBuiltin(st *State, call *ast.CallExpr, preArgs []Value, rt t
 			sl2 = sx("sllen", spread.S)
 			at = fmt.Sprintf("(select (select %s (sref %s)) (+ (sloff %s) k!c))", h, spread.S, spread.S)
 		}
-		st.assume(fmt.Sprintf("(forall ((k!c Int)) (! (=> (and (<= 0 k!c) (< k!c %s)) (= (select %s (+ %s k!c)) %s)) :pattern ((select %s (+ %s k!c)))))",
+		st.axiom(fmt.Sprintf("(forall ((k!c Int)) (! (=> (and (<= 0 k!c) (< k!c %s)) (= (select %s (+ %s k!c)) %s)) :pattern ((select %s (+ %s k!c)))))",
 			sl2, na, newLen, at, na, newLen))
 		newLen = sAdd(newLen, sl2)
 	}
